@@ -8,6 +8,22 @@ CHECKS = {
    technique="property-based testing (proptest): round-trip oracle over generated report sets and selections",
    text="Generated (measurement, epoch, t, n, per-client aux, randomness source incl. a real PPOPRF exchange, wire round trip) and three share selections per case; every report must decrypt to exactly what its client supplied. Sampling of an unbounded input space with measured class distribution; not a proof.",
    note="OsRng inside the code under test is not steered; proptest 1.11 and the harness's own payload parser are trusted."),
+ "C06": dict(cat="exploration", design="5/C06",
+   technique="property-based testing (proptest) against an independent big-integer model (Horner, Lagrange) with scripted random sources",
+   text="Generated thresholds 1..600, secrets of 0..16 boundary/uniform elements, scripted random-source streams (incl. zero words and limbs of p), both dealing modes, selections with permutation/duplicates/surplus, sub-threshold and unequal-length collections, out-of-range secrets. Every dealt value and every recovery is compared with num-bigint Horner/Lagrange; coefficients are compared with the draws replayed from the same stream. Sampling, not proof.",
+   note="num-bigint is the yardstick; a 'draw' is defined by replaying the stream through Fp::random; endless degenerate streams are excluded (they hang rejection sampling by construction)."),
+ "C07": dict(cat="exploration", design="5/C07",
+   technique="exhaustive boundary lattice + property-based testing (proptest) against big-integer arithmetic mod p",
+   text="Complete enumeration of a 43-value boundary set crossed with itself for every binary operation and of the set for every unary operation (with every boundary value as exponent), plus generated operands/exponents and 24-byte strings for decoding; published constants checked against their documented meaning with p-1 = 2q re-verified. The lattice part is exhaustive, the rest is sampling of 2^258 pairs.",
+   note="num-bigint 0.3.3 is trusted as the arithmetic reference; Miller-Rabin (24 bases) for the primality of p and q."),
+ "C08": dict(cat="fault_enumeration", design="5/C08",
+   technique="differential testing against an independently written layout parser, with per-base complete fault enumeration (proptest-generated bases)",
+   text="For generated honest and model-built encodings: every prefix, every length field x 21 boundary values, 12 fault kinds at every byte offset, splices, appended bytes, out-of-range elements, raw strings; each string goes to all four decoders and the verdict (accept/reject/either) and the re-encoding are compared with the independent model. Honest values must round-trip and be canonical.",
+   note="The layout model was written from the documented layout; trailing-byte policy after J and after the tag chunk is left open (MAY)."),
+ "C09": dict(cat="fault_enumeration", design="5/C09",
+   technique="property-based testing / fault injection (proptest) with catch_unwind oracle over every consumer of foreign data",
+   text="All listed entry points run under catch_unwind on the malformed-string families of C08, on degenerate but decodable shares, on mutated public-key/proof bytes and JSON texts (every prefix), on arbitrary 32-byte points x tags, on evaluations with missing proofs / undecodable points, and on arbitrary text for the WASM grouping call; decoded values are passed on to their consumers. Any unwind is a violation.",
+   note="Aborts are only detected through the exit status (run.sh); Point::from(&[u8]) and Client::unblind are outside the statement's list."),
 }
 PENDING = {}
 
